@@ -5,7 +5,8 @@ from oracles import NumpyOracle, ConsistencyOracle
 from propbase import StreamProperty
 
 RULE = ("every ufunc / reduction of the registry x operand arrangement (data, data+scalar, scalar+data, data+data with "
-        "distinct values) x every axis name and every positional axis (positive and negative) and None of 1-4-D objects "
+        "distinct values) x every axis name, every positional axis (positive and negative), None, and tuple-valued axes (every "
+        "ordered subset of the dimensions, entries by name / position / negative position, duplicate and unknown entries) of 1-4-D objects "
         "with pairwise distinct extents, real and complex; non-trivial = >=2 dims; distinct by canonical stream")
 RED = ["sum", "mean", "max", "min", "prod", "var", "median", "any", "all", "ptp"]
 UN = ["negative", "conj", "square", "positive"]
@@ -27,6 +28,18 @@ def streams(tier, seed):
                     axes = rng.sample(axes, 5)
                 for ax in axes:
                     out.append([a, {"op": "np_reduce", "f": f, "obj": 0, "axis": ax, "out": 1}])
+                # tuple-valued axis: names, positions (positive / negative), mixed, every order, incl. all dims, duplicates
+                # and unknown entries
+                if nd >= 2:
+                    tuples = []
+                    for r in range(1, nd + 1):
+                        for combo in itertools.permutations(range(nd), r):
+                            tuples.append([rng.choice([dims[k], k, k - nd]) for k in combo])
+                    tuples.append([dims[0], 0]); tuples.append(["nope", dims[0]]); tuples.append([dims[0], nd + 2])
+                    if tier == "quick":
+                        tuples = rng.sample(tuples, min(len(tuples), 4 if nd < 4 else 3)) + [tuples[-3]]
+                    for ax in tuples:
+                        out.append([a, {"op": "np_reduce", "f": f, "obj": 0, "axis": ax, "out": 1}])
             for f in UN:
                 a = new_op(rng, 0, ndim=nd, cplx=rng.random() < 0.5)
                 out.append([a, {"op": "np_unary", "f": f, "obj": 0, "out": 1}])
